@@ -487,13 +487,14 @@ package main
 //@   local CT := b64enc(daeadEnc(mkbytes(elems(encryptionKey), off(encryptionKey), len(encryptionKey)), sbytes(strOf(v)), noBytes))
 //@   ensures key-path-frame: unchangedBelowExcept("Arr:Str", base(keyPath)) && unchangedOutside("Arr:Str", base(keyPath), off(keyPath), off(keyPath) + len(keyPath) - 1)
 //@   ensures string-class-placeholder {C05,C02,C19,C10}: implies(isStr(v), result == v || result == VStr(P) || (enc && result == VStr(CT)))
-//@   ensures string-kept-only-where-allowed {C01,C02,C03,C04,C05,C12,C14,C15,C19}: implies(isStr(v) && result == v, (sel && !named) || polExempt(pk) || v == VStr(P) || (enc && v == VStr(CT)))
+//@   ensures string-kept-only-where-allowed {C01,C02,C03,C04,C05,C12,C14,C15,C19}: implies(isStr(v) && result == v, (sel && !named) || polExempt(pk) || (pk == "subType" && gpk == "$binary") || v == VStr(P) || (enc && v == VStr(CT)))
 //@   ensures number-zero-or-kept {C05,C03,C04}: implies(isNum(v), result == v || (redactNumbers && result == VF64(f64_0)))
-//@   ensures number-kept-only-where-allowed {C01,C02,C03,C04,C05,C12,C14,C15,C19}: implies(isNum(v) && result == v, !redactNumbers || (sel && !named) || polExempt(pk))
+//@   ensures number-kept-only-where-allowed {C01,C02,C03,C04,C05,C12,C14,C15,C19}: implies(isNum(v) && result == v, !redactNumbers || (sel && !named) || polExempt(pk) || (pk == "subType" && gpk == "$binary"))
 //@   ensures number-verbatim-without-flag {C04}: implies(isNum(v) && !redactNumbers, result == v)
 //@   ensures boolean-false-or-kept {C05,C03}: implies(isBool(v), result == v || (redactBooleans && result == VBool(false)))
-//@   ensures boolean-kept-only-where-allowed {C01,C02,C03,C04,C05,C12,C14,C15,C19}: implies(isBool(v) && result == v, !redactBooleans || (sel && !named) || polExempt(pk) || v == VBool(false))
+//@   ensures boolean-kept-only-where-allowed {C01,C02,C03,C04,C05,C12,C14,C15,C19}: implies(isBool(v) && result == v, !redactBooleans || (sel && !named) || polExempt(pk) || (pk == "subType" && gpk == "$binary") || v == VBool(false))
 //@   ensures null-stays-null {C03}: implies(v == nil, result == nil)
+//@   ensures the-binary-subtype-is-kept {C04,C05}: implies(pk == "subType" && gpk == "$binary", result == v)
 //@   ensures unchanged-when-no-name-matches {C14}: implies(sel && !named, result == v)
 //@   ensures redacted-when-a-name-matches {C14}: implies(sel && named && isStr(v) && !polExempt(pk), result == VStr(P) || (enc && result == VStr(CT)))
 //@   ensures search-stage-ignores-selection {C14}: implies(isSearchStage && isStr(v) && !polExempt(pk), result == VStr(P) || (enc && result == VStr(CT)))
